@@ -37,6 +37,12 @@ type TimerThread = timeout_list::TimerThread<TimerData>;
 
 static mut SCHED: *const Scheduler = std::ptr::null();
 
+// a worker runs at most this many coroutines in a row before it goes back to its
+// event loop: coroutines that always find something to do (a yield loop) must not
+// keep it from the io events, the io timers and the coroutines that other threads
+// hand over, which only the event loop collects
+const RUN_BATCH: usize = 256;
+
 #[cold]
 fn init_scheduler() {
     let workers = config().get_workers();
@@ -135,9 +141,23 @@ impl Scheduler {
     #[cfg(not(feature = "work_steal"))]
     pub fn run_queued_tasks(&self, id: usize) {
         let local = unsafe { self.local_queues.get_unchecked(id) };
-        while let Some(co) = local.pop() {
-            run_coroutine(co);
+        for _ in 0..RUN_BATCH {
+            match local.pop() {
+                Some(co) => run_coroutine(co),
+                None => return,
+            }
         }
+    }
+
+    /// coroutines are left in the local queue of the worker, called by the worker itself
+    #[inline]
+    pub fn has_local_tasks(&self, id: usize) -> bool {
+        #[cfg(feature = "work_steal")]
+        let local = unsafe { &*self.local_queues.get_unchecked(id).get() };
+        #[cfg(feature = "work_steal")]
+        return local.has_tasks();
+        #[cfg(not(feature = "work_steal"))]
+        return !unsafe { self.local_queues.get_unchecked(id) }.is_empty();
     }
 
     #[inline]
@@ -150,7 +170,13 @@ impl Scheduler {
         #[cfg(feature = "rand_work_steal")]
         let mut rng = fastrand::Rng::new();
 
+        let mut left = RUN_BATCH;
         'work: loop {
+            if left == 0 {
+                // the event loop comes back without waiting, see `has_local_tasks`
+                return;
+            }
+            left -= 1;
             match local.pop() {
                 Some(co) => {
                     run_coroutine(co);
